@@ -15,6 +15,7 @@ import Pdpy11.Driver.Cli
 import Pdpy11.Driver.Asm
 import Pdpy11.Driver.Defs
 import Pdpy11.Driver.Layout
+import Pdpy11.Driver.Shunt
 namespace Pdpy11.Driver
 
 def handle (line : String) : String :=
@@ -48,6 +49,7 @@ def handle (line : String) : String :=
     | "asm" => handleAsm args
     | "defs" => handleDefs args
     | "layout" => handleLayout args
+    | "shunt" => handleShunt args
     | "ping" => "pong"
     | _ => "bad-op"
 
